@@ -22,8 +22,10 @@ def rand_cell(rnd):
         ci = rnd.randrange(0, 16384)
     elif k < 0.85:
         ci = rnd.choice([0, 25, 26, 27, 701, 702, 16383, 18277, 18278, NCOLS4 - 1, rnd.randrange(0, NCOLS4)])
-    else:
+    elif k < 0.95:
         ci = rnd.randrange(0, 26 ** 6)
+    else:
+        ci = rnd.randrange(26 ** 9, 26 ** rnd.choice([11, 12, 13, 14, 16, 20]))      # column names of 10-20 letters: exact in whole-number arithmetic only
     ri = rnd.choice([0, 1, 8, 9, 98, 99, 1048575, 1048576, rnd.randrange(0, 1048576), rnd.randrange(0, 2000), rnd.randrange(0, 10 ** 9)])
     if rnd.random() < 0.3:          # small coordinates: every (row, column) pair below 40 is met many times
         ci, ri = rnd.randrange(0, 40), rnd.randrange(0, 40)
